@@ -95,6 +95,11 @@ impl Prop for C19 {
         cfg.env.current_dir = Some(cwd.clone());
         cfg.env.hostname = Some("host.example".to_string());
         cfg.env.git_prefix = prefix.clone();
+        // the displayed path may be rewritten; links keep pointing at the real file
+        if t.chance(1, 4) {
+            cfg.set("file-transformation", t.ps(&["s,src/,SRC/,", "s,^,top/,", "s,[a-z]+/,,", "s,\\.,_,g"]));
+            ctx.class("file-transformation");
+        }
         if relative_paths {
             cfg.flag("relative-paths");
         }
